@@ -454,3 +454,12 @@ def p8(ctx):
 
 
 RULES.append(p8)
+
+
+@rule("P9", doc="a class merge moves every e-node of the absorbed class and queues each for full re-processing (C12.O1)")
+def p9(ctx):
+    from . import c12
+    c12.o1(ctx)
+
+
+RULES.append(p9)
